@@ -32,5 +32,16 @@ static inline vvec *vvec2_back(vvec2 *v) { VERIF_STD_PRE(v->size > 0, "vector::b
 static inline void vvec2_emplace_back(vvec2 *v, size_t inner) { VERIF_STD_PRE(v->size < v->cap, "ghost capacity (contracts require room for one more element: allocation succeeds)"); v->items[v->size].size = inner; v->size = v->size + 1; }
 static inline void vvec2_pop_back(vvec2 *v) { VERIF_STD_PRE(v->size > 0, "vector::pop_back on an empty vector"); v->size = v->size - 1; }
 
+/* std::ifstream opened in binary mode on a file whose bytes are data[0..len) - state machine per
+ * [istream.unformatted] / [ios.base]: read() past the end delivers what is left and sets
+ * eofbit|failbit; seekg() first clears eofbit and then does nothing if fail(); a read on a stream
+ * that is not good() sets failbit and delivers nothing; tellg() is -1 while fail().  The three
+ * operations are contract-only (trusted model of libstdc++; probed natively in DESIGN 3.2). */
+typedef struct vifs { const char *data; size_t len; size_t pos; bool is_open; bool failbit; bool eofbit; size_t gcount; } vifs;
+static inline bool vifs_is_open(const vifs *f) { return f->is_open; }
+static inline void vifs_clear(vifs *f) { f->failbit = false; f->eofbit = false; }
+/* std::string result: bytes written into a caller-provided ghost buffer */
+typedef struct vstr { char *data; size_t cap; size_t len; } vstr;
+
 #define VERIF_SWAP(a, b) do { __typeof__(a) verif_t = (a); (a) = (b); (b) = verif_t; } while (0)
 #endif
